@@ -227,8 +227,11 @@ def check_histories(res, exe, drv, hists, stats, samples):
                'a_shape_that_contained_an_endpoint_earlier_no_longer_does': left,
                'offenders_(segment,shape,degenerate_chord)': off, 'script': hist_script(h, i + 1),
                'replay': './check C03 --replay <this file>  (runs "script" on harness/c03_route.cpp and re-checks the last dump)'}
+        if h.get('family', 'contains') != 'contains' and stats['violations'] >= 8:
+            stats['violations'] += 1          # directed families: report the first few, count the rest
+            continue
         if off == [(-1, -1, 0)]:
-            obj['what'] = 'displayRoute has fewer than two points or does not start/end at the attachment points (contains family)'
+            obj['what'] = 'displayRoute has fewer than two points or does not start/end at the attachment points (history family %s)' % h.get('family', 'contains')
             res.violation(obj)
             stats['violations'] += 1
             continue
